@@ -38,12 +38,12 @@ fn one_step(w: &mut World, out: &mut Out, rng: &mut Rng, g: &mut Gen, p: &Profil
     }
 }
 
-fn random_trace(out: &mut Out, rng: &mut Rng, fl: Fl, nsteps: usize) {
+fn random_trace(out: &mut Out, rng: &mut Rng, fl: Fl, nsteps: usize, outside: bool) {
     let naddr = 4 + rng.below(2) as usize;
     let now0 = *rng.pick(&[0u32, 1, 5, 1000, 100_000]);
     let min_ttl = *rng.pick(&[1u32, 1, 16]);
     let max_ttl = *rng.pick(&[30u32, 1000, 6_312_000]);
-    let mode = rng.below(3) as u32;
+    let mode = if outside { 3 } else { rng.below(3) as u32 };
     let mut w = World::new(fl, naddr, now0, min_ttl, max_ttl, None);
     let p = profile(fl, mode);
     let mut g = Gen { lus: std::vec![] };
@@ -54,7 +54,8 @@ fn random_trace(out: &mut Out, rng: &mut Rng, fl: Fl, nsteps: usize) {
         w.step(out, rng, &c);
     }
     for _ in 0..nsteps { one_step(&mut w, out, rng, &mut g, &p); }
-    w.flush(out, "random");
+    out.label(if outside { "family/outside-quantifier" } else { "family/random" });
+    w.flush(out, if outside { "outside-quantifier" } else { "random" });
 }
 
 fn scenario(out: &mut Out, rng: &mut Rng, fl: Fl, max_ttl: u32, desc: &str, calls: &[Call]) {
@@ -100,6 +101,74 @@ fn directed(out: &mut Out, rng: &mut Rng) {
     }
 }
 
+/// One directed history per flavour in which every role x liveness situation named by the property's quantifier
+/// occurs; each situation has its own coverage label `<flavour>/role/<situation>/<kind>/<outcome>`.
+fn roles(out: &mut Out, rng: &mut Rng) {
+    for fl in [Fl::Base, Fl::Enum, Fl::Cons] {
+        for min_ttl in [1u32, 16] {
+            let mut w = World::new(fl, 5, 10, min_ttl, 1000, None);
+            match fl { Fl::Cons => { w.step(out, rng, &Call::BatchMint(0, 7)); w.step(out, rng, &Call::BatchMint(1, 1)); }
+                       _ => { for _ in 0..7 { w.step(out, rng, &Call::MintSeq(0)); } w.step(out, rng, &Call::MintSeq(1)); } }
+            // tokens 0..6 belong to account 0, token 7 to account 1; 3 = approved account, 4 = operator, 2 = stranger
+            let l = |w: &mut World, out: &mut Out, rng: &mut Rng, situation: &str, c: Call| {
+                let (ok, _) = w.step(out, rng, &c);
+                out.label(&format!("{}/role/{}/{}/{}", fl.tag(), situation, c.kind(), if ok { "ok" } else { "fail" }));
+            };
+            for id in [0u32, 2, 4] { w.step(out, rng, &ap(0, 3, id, 13)); }
+            w.step(out, rng, &apa(0, 4, 13));
+            w.step(out, rng, &Call::Advance(3));                                  // now = 13 = live_until
+            l(&mut w, out, rng, "approved-at-live-until", trf(3, 0, 3, 0));
+            l(&mut w, out, rng, "operator-at-live-until", buf(4, 0, 1));
+            l(&mut w, out, rng, "operator-at-live-until", ap(4, 2, 3, 20));
+            l(&mut w, out, rng, "operator-revokes-live-approval", ap(4, 3, 2, 0));
+            l(&mut w, out, rng, "revoked-approved", trf(3, 0, 3, 2));
+            w.step(out, rng, &Call::Advance(1));                                  // now = 14 = live_until + 1
+            l(&mut w, out, rng, "approved-after-live-until", trf(3, 0, 3, 4));
+            l(&mut w, out, rng, "approved-after-live-until", buf(3, 0, 4));
+            l(&mut w, out, rng, "operator-after-live-until", buf(4, 0, 4));
+            l(&mut w, out, rng, "operator-after-live-until", trf(4, 0, 4, 4));
+            l(&mut w, out, rng, "operator-after-live-until", ap(4, 2, 4, 30));
+            l(&mut w, out, rng, "approval-given-by-expired-operator-still-live", trf(2, 0, 2, 3));
+            l(&mut w, out, rng, "former-owner", tr(0, 1, 0));
+            l(&mut w, out, rng, "former-owner", trf(0, 0, 1, 0));
+            l(&mut w, out, rng, "former-owner", bu(0, 0));
+            l(&mut w, out, rng, "former-owner", ap(0, 2, 0, 40));
+            w.step(out, rng, &ap(0, 3, 5, 40));
+            w.step(out, rng, &tr(0, 1, 5));
+            l(&mut w, out, rng, "former-approved-after-transfer", trf(3, 1, 3, 5));
+            l(&mut w, out, rng, "former-approved-after-transfer", buf(3, 1, 5));
+            w.step(out, rng, &tr(1, 0, 5));
+            l(&mut w, out, rng, "former-approved-after-round-trip", trf(3, 0, 3, 5));
+            w.step(out, rng, &ap(0, 3, 5, 40));
+            l(&mut w, out, rng, "approved-account-approves", ap(3, 2, 5, 40));
+            l(&mut w, out, rng, "approved-names-itself-as-from", tr(3, 1, 5));
+            w.step(out, rng, &apa(0, 4, 60));
+            l(&mut w, out, rng, "operator-names-itself-as-from", bu(4, 5));
+            l(&mut w, out, rng, "entitled-spender-with-owner-auth-only", Call::TransferFrom { auths: std::vec![0], spender: 3, from: 0, to: 3, id: 5 });
+            l(&mut w, out, rng, "entitled-spender-with-owner-auth-only", Call::BurnFrom { auths: std::vec![0], spender: 4, from: 0, id: 5 });
+            l(&mut w, out, rng, "owner-without-auth", Call::Transfer { auths: std::vec![3, 4], from: 0, to: 1, id: 5 });
+            l(&mut w, out, rng, "stranger", trf(2, 0, 2, 5));
+            l(&mut w, out, rng, "stranger", ap(2, 2, 5, 40));
+            w.step(out, rng, &apa(1, 2, 60));
+            l(&mut w, out, rng, "operator-of-another-owner", trf(2, 0, 2, 5));
+            l(&mut w, out, rng, "operator-of-another-owner", buf(2, 0, 6));
+            w.step(out, rng, &apa(0, 4, 0));
+            l(&mut w, out, rng, "revoked-operator", trf(4, 0, 4, 5));
+            l(&mut w, out, rng, "revoked-operator", buf(4, 0, 6));
+            l(&mut w, out, rng, "approved-before-live-until", buf(3, 0, 5));
+            w.flush(out, &format!("roles/minttl{}", min_ttl));
+        }
+    }
+    // outside the quantifier: the re-mint of an existing id keeps the previous owner's approval (model and code agree)
+    for fl in [Fl::Base, Fl::Enum] {
+        let mut w = World::new(fl, 5, 10, 1, 1000, None);
+        for c in [Call::MintId(0, EXPLICIT_BASE), ap(0, 3, EXPLICIT_BASE, 50), Call::MintId(1, EXPLICIT_BASE), trf(3, 1, 3, EXPLICIT_BASE),
+                  Call::MintId(0, 1), ap(0, 3, 1, 50), Call::MintSeq(2), Call::MintSeq(2), buf(3, 2, 1)] { w.step(out, rng, &c); }
+        out.label(&format!("scenario/{}/outside-remint-keeps-stale-approval", fl.tag()));
+        w.flush(out, "outside-remint-keeps-stale-approval");
+    }
+}
+
 fn main() {
     let mut out = Out::new("From SC Require Import Lib.Prelude Lib.Int Lib.Host Model.Nft Run.NftCommon Run.C11.\nOpen Scope Z_scope.", "check_all");
     out.per_shard(260);
@@ -107,11 +176,15 @@ fn main() {
     let thorough = out.cfg.thorough;
     let scale = out.cfg.scale as usize;
     directed(&mut out, &mut rng);
+    roles(&mut out, &mut rng);
     persistence_scenarios(&mut out, &mut rng);
     let (ntr, nsteps) = if thorough { (600 * scale, 70) } else { (111 * scale, 45) };
     for i in 0..ntr {
         let fl = match i % 3 { 0 => Fl::Base, 1 => Fl::Enum, _ => Fl::Cons };
-        random_trace(&mut out, &mut rng, fl, nsteps);
+        random_trace(&mut out, &mut rng, fl, nsteps, false);
     }
+    // OUTSIDE the property's quantifier (explicit ids colliding with the counter / with existing ids): compared with the
+    // model by the diff; the monitor stops judging at the offending mint
+    for i in 0..(if thorough { 60 * scale } else { 8 * scale }) { random_trace(&mut out, &mut rng, if i % 2 == 0 { Fl::Base } else { Fl::Enum }, nsteps, true); }
     out.finish();
 }
